@@ -76,6 +76,14 @@ CHECKS = {
                 technique="all compositions + transition closure from the canonical aggregator state + boundary / single-mutation enumeration + total small-group enumeration incl. s+kN re-encodings, lock-step draft-spec model",
                 text="For n in 0..8 every composition n = n1+...+nk of incremental aggregation equals one-shot aggregation and the model byte for byte; every (n_before, n_new) transition from the canonical state for n <= 64 closes all splits by induction; buffer lengths from 0 to 32(n+2); aggverify on honest aggregates, reordered keys / messages, one altered signature, every bit flip (n <= 3), r_i >= p / off-curve, s <- n / 2^256-1, wrong lengths, size_t-wrapping n_before+n_new; in the order-13 build all keys x challenge-covering messages x n <= 3 are aggregated and every s encoding s+13k and every s in Z_13 is decided by the model equation (the only place a dropped s >= n rejection shows for n >= 1).",
                 note="On secp256k1 r_i+p / s+n re-encodings of a valid aggregate with n >= 1 do not exist; only two fixed key/message data sets are used there."),
+    "C14": dict(level=MC, design="§4 C14",
+                technique="boundary-alphabet pipeline product + single-mutation enumeration on every adaptor signature + total small-group enumeration of the scalar space, lock-step adaptor / DLEQ reference model",
+                text="encrypt for boundary signing / decryption keys x messages (incl. >= n) x nonce sources (default, with aux, custom constant, failing, k = 0) is byte-compared with the model (self-tested on the DLC spec vectors shipped in the tree); verify = 1, decrypt gives a low-S signature that verifies, recover from it and from the negated-s twin returns the decryption key, failure outputs zeroed; every one of the 1296 bit flips, each scalar replaced by 0 / n / s+n / 2^256-1, points negated / off-curve / x >= p, foreign keys / messages / signatures are decided by the model verifier; in the order-13 build every (x, y, k, m) and every (s', e, s) triple is enumerated, deciding exactness over the whole scalar space incl. s+kN re-encodings.",
+                note="The decoder reduces the DLEQ challenge e mod n (only distinguishable in the small-group test builds; the model follows the code). Adaptor points with x >= n / x+p aliases are covered at decoder level and in the small group only."),
+    "C15": dict(level=MC, design="§4 C15",
+                technique="boundary-alphabet product + protocol-history enumeration (4-step anti-exfil machine run twice in every same/different combination, on 3 context kinds) + single-bit mutation enumeration, lock-step sign-to-contract reference model",
+                text="s2c_sign for boundary keys x messages (0, n-1, n, 2^256-1) x data is byte-compared with the model (signature and opening); verify_commit accepts exactly (sig, data, opening) and rejects every other datum in the alphabet and every single-bit flip of signature, datum and opening; the anti-exfil protocol host_commit -> signer_commit -> sign -> host_verify is run twice in every combination of same / different host randomness and message with the invariants of the statement (committed opening = opening of the signature, same randomness => same opening, host_verify = commit check AND ecdsa_verify on all mutated inputs), on fresh, randomised and replaced-compression-function contexts so that the two separately written nonce derivations must agree; opening codec over 33 x-values x every prefix byte.",
+                note="Production group only (sign-to-contract tweaks are dead in the small-group builds); cryptographically unreachable retries (tweak >= n, k+t = 0) are not driven."),
 }
 
 NOT_YET = "check not built yet in this round (work in progress; see DESIGN.md section 4 for the planned exploration)"
